@@ -760,7 +760,7 @@ def gen_C18(tier, seed):
                     lines += [f"@s({C},{R},{C * R}) roundtrip str", f"@S({C},{R},{C * R}) roundtrip value"]
             b.case(elem, lines)
     # arrays and views large enough to cross typical buffer / preallocation thresholds (256, 1024, 4096, 65536 cells)
-    big = [(17, 16), (65, 64), (1, 5000), (5000, 1)] + ([(257, 256), (300, 300)] if tier == "thorough" else [])
+    big = [(17, 16), (65, 64), (1, 5000), (5000, 1)] + ([(129, 128), (33, 32)] if tier == "thorough" else [])
     for (C, R) in big:
         d = [(7 * j + 3) % 4294967296 for j in range(C * R)]
         root = f"@ from_vec {C} {R} {fl(d)}"
@@ -1141,7 +1141,7 @@ RULES = {
     "C15": "all shapes <= 5x5 (8x8) x all mids 0..dim+1 and 2^64-1 on root, ext and views; arrays with 6..12 (16) rows x 1,3,4 columns x every row mid (every gcd pattern); flips" + NT,
     "C16": "all shapes <= 4x4 (5x5) x 6 row variants x every row index 0..dim+1 and 2^64-1 x root/ext/views, keys drawn from a 3-letter alphabet with distinct cells (all tie patterns over the repetitions); wide arrays 40-70 (24-260) columns x 2 rows with a 2-letter alphabet" + NT,
     "C17": "as C16 for the 5 column variants (tall arrays)",
-    "C18": "all shapes <= 4x4 (6x6), 1x9, 9x1, 7x5 with boundary u32 values x {u32,cell} x 4 transports; views, shared views and slice-built views (u32); plus arrays and full / interior windows of 17x16, 65x64, 1x5000, 5000x1 (257x256, 300x300) cells, crossing typical preallocation thresholds" + NT,
+    "C18": "all shapes <= 4x4 (6x6), 1x9, 9x1, 7x5 with boundary u32 values x {u32,cell} x 4 transports; views, shared views and slice-built views (u32); plus arrays and full / interior windows of 17x16, 65x64, 1x5000, 5000x1 (33x32, 129x128) cells, crossing typical preallocation thresholds" + NT,
     "C19": "600 (6000) grammar-generated documents (missing / duplicated / unknown / escaped keys, dimension values 0..6, 2^32, 2^63, 2^64-1, 2^64, -1, 1.5, 1e2, \"3\", null, [], {}, true, 01; data length product-1..product+2, ill-typed elements, non-array data, non-object documents, truncated text) x 4 transports; well-formed documents on ledgered cells" + NT,
 }
 
